@@ -463,9 +463,19 @@ def expected_tree_names(tags, tree, quirks):
                 continue
             seen.add(key)
             out.append((ap, ns, al, av))
-        if out != el[4]:
+        # attribute order is not part of the property (nor of the XML infoset): compare as multisets
+        if sorted(out, key=repr) != sorted(el[4], key=repr):
             return "element #%d <%s>: expected attributes %r, tree has %r" % (k, rawname, out, el[4])
     return None
+
+
+def dup_test_sensitive(raw_attrs):
+    """a tag on which the tokenizer's raw-vs-local duplicate test and an exact-name test give different answers"""
+    for j, (nj, _) in enumerate(raw_attrs):
+        for ni, _ in raw_attrs[:j]:
+            if (split_name(ni)[1] == nj) != (ni == nj):
+                return True
+    return False
 
 
 QUIRK_NAMES = {"R": "raw-vs-local-duplicate-test", "X": "prefixed-xmlns-attribute-dropped",
@@ -533,6 +543,18 @@ def build_all(ck):
     bindir = ck.cargo_build(["xmlns"])
     model = ck.ocaml_build("xmlns_model", "xmlns_model.ml", "xmlns_driver.ml")
     return proofs_ok, bindir, model
+
+
+def fewer_findings(tags, impl_tree, model_tree):
+    """names of the known root causes the pinned model shows on this input and the implementation does not
+    (None if that is not the situation): a repair in /repo, not a broken tie"""
+    why, qs = c16_oracle(tags, impl_tree)
+    if why is not None and qs is None:
+        return None
+    mwhy, mqs = c16_oracle(tags, model_tree)
+    if mwhy is None or mqs is None or not set(qs or ()) < set(mqs):
+        return None
+    return "+".join(QUIRK_NAMES[q] for q in sorted(set(mqs) - set(qs or ())))
 
 
 def tolerated_fix(ck, what):
@@ -617,14 +639,20 @@ def run(ck):
         if not (tree_agrees and tokens_agree):
             # the model is the pinned code; if the implementation now satisfies the property on a case where
             # the model shows a known finding, the defect was repaired in /repo - not a broken tie
-            model_why = None
-            if doc is not None and why is None:
-                mt = sections(raw_out[i]).get("TREE")
+            if why is None or qs is not None:
+                impl_q = set(qs or ())
+                src_tags = [t for t in doc if t[0] == "tag"] if doc is not None else tags_from_tokens(toks)
+                mt = sections(raw_out[i]).get("TREE") if doc is not None else m.get("TREE")
                 if mt is not None:
-                    model_why, mqs = c16_oracle([t for t in doc if t[0] == "tag"], parse_tree(mt))
-                    if model_why is not None and mqs is not None:
-                        tolerated_fix(ck, "+".join(QUIRK_NAMES[q] for q in mqs))
+                    model_why, mqs = c16_oracle(src_tags, parse_tree(mt))
+                    if model_why is not None and mqs is not None and impl_q < set(mqs):
+                        tolerated_fix(ck, "+".join(QUIRK_NAMES[q] for q in sorted(set(mqs) - impl_q)))
                         continue
+                if tree_agrees and doc is not None and any(dup_test_sensitive(t[3]) for t in src_tags):
+                    # same tree, different token stream, on a tag where the raw-vs-local duplicate test and a
+                    # correct one differ (the tree builder's own de-duplication hides it): tokenizer repaired
+                    tolerated_fix(ck, QUIRK_NAMES["R"] + " (token stream only)")
+                    continue
             bad_corr += 1
             if bad_corr <= 3:
                 ck.broken.append("correspondence xmlns model vs xml5ever (%s): xml %r impl tree %r errs %s model %r raw-model %r"
